@@ -84,6 +84,12 @@ def facts(repo):
     f["nonzero_only"] = "include1 = x1.coefficients[idx1] != 0" in istm and "include = include1 & include2" in istm \
         and "if not numpy.any(include):\n    continue" in istm
     f["quotient_coef"] = "candidate = x1.coefficients[idx1] / numpy.where(include, x2.coefficients[idx2], 1)" in istm
+    # the cut-off below which a candidate is skipped: the documented default 1e-30 (anything larger silently leaves
+    # small but legitimate quotient terms in the remainder)
+    args = gdc.args
+    defaults = dict(zip([a.arg for a in args.args][len(args.args) - len(args.defaults):], args.defaults))
+    f["cutoff_default"] = ("cutoff" in defaults and isinstance(defaults["cutoff"], ast.Constant) and defaults["cutoff"].value == 1e-30
+                           and "if numpy.all(numpy.abs(candidate) < cutoff):\n    continue" in istm)
     f["returns_first"] = istm[-1] == "return (idx1, idx2, include, candidate)" and ast.unparse(gdc.body[-1]) == "return None"
     # ---- poly_divmod loop
     pd = _fn(tree, "poly_divmod")
@@ -121,7 +127,7 @@ def facts(repo):
     return f
 
 
-KEYS = ["order_desc", "leading_rule", "divisible", "nonzero_only", "quotient_coef", "returns_first", "loop_until_none",
+KEYS = ["order_desc", "leading_rule", "divisible", "nonzero_only", "quotient_coef", "cutoff_default", "returns_first", "loop_until_none",
         "update_masked", "returns_pair", "operators"]
 
 
